@@ -8,6 +8,8 @@ import (
 	"vh/crdt"
 )
 
+var errAbort = fmt.Errorf("abort")
+
 func tierN(tier string, quick, thorough int) int {
 	if tier == "thorough" {
 		return thorough
@@ -23,6 +25,11 @@ type histShape struct {
 	idle   int // idle operation pairs issued first (advances clocks past 10/100/1000)
 	idleOn int
 	clock  uint64 // non-zero: the idle replica starts at this (large) clock value
+	// boundary > 0 (lists and documents): replica 0 opens the history with ONE operation that
+	// creates 11-25 elements (delimiters 10.. at clock 1) and then issues `boundary` more
+	// operations on that sequence before anything is delivered to it, so that its clock walks
+	// through 10..45 - the (clock, delimiter) pairs whose decimal renderings meet
+	boundary int
 }
 
 func drawShape(c *core.Case, maxSteps int) histShape {
@@ -39,6 +46,11 @@ func drawShape(c *core.Case, maxSteps int) histShape {
 		}
 	}
 	s.idleOn = r.Intn(s.nrep)
+	if (s.typ == "list" || s.typ == "doc") && r.Intn(6) == 0 {
+		s.boundary = 10 + r.Intn(35)
+		s.idle, s.clock = 0, 0
+		return s
+	}
 	if r.Intn(10) == 0 {
 		clocks := []uint64{1<<31 - 3, 1<<32 - 3, 1<<53 - 3, 1<<62 - 100000}
 		s.clock = clocks[r.Intn(len(clocks))]
@@ -50,6 +62,9 @@ func runIdle(h *crdt.Hist, s histShape) (string, string) {
 	if s.clock != 0 {
 		h.S.Step("r%d starts at clock %d", s.idleOn, s.clock)
 		crdt.InstallClock(h.Reps[s.idleOn], s.clock)
+	}
+	if s.boundary > 0 {
+		return runBoundary(h, s)
 	}
 	if s.idle == 0 {
 		return "", ""
@@ -66,12 +81,84 @@ func runIdle(h *crdt.Hist, s histShape) (string, string) {
 	return "", ""
 }
 
+// runBoundary: see histShape.boundary.
+func runBoundary(h *crdt.Hist, s histShape) (string, string) {
+	rep := h.Reps[0]
+	g := h.G
+	n := 11 + g.R.Intn(15)
+	var vs []interface{}
+	for i := 0; i < n; i++ {
+		vs = append(vs, g.Prim())
+	}
+	var path []interface{}
+	first := crdt.Op{Kind: "ins", Pos: 0, Vals: vs}
+	if s.typ == "doc" {
+		first = crdt.Op{Kind: "put", Key: "k0", Val: vs}
+		path = []interface{}{"k0"}
+	}
+	h.S.Step("r0 boundary prefix: %d elements in one operation, then %d operations on that sequence", n, s.boundary)
+	if _, err, sig, msg := h.Local(rep, first); sig != "" || err != nil {
+		if sig == "" {
+			sig, msg = "boundary-op-error", fmt.Sprintf("%s failed: %v", first, err)
+		}
+		return sig, msg
+	}
+	size := n
+	ub := g.UpdBias
+	g.UpdBias = 0.4
+	defer func() { g.UpdBias = ub }()
+	for i := 0; i < s.boundary; i++ {
+		op := g.SeqOp(size, path)
+		if s.typ == "list" {
+			op = g.SeqOp(size, nil)
+		}
+		if _, err, sig, msg := h.Local(rep, op); sig != "" {
+			return sig, msg
+		} else if err == nil {
+			switch op.Kind {
+			case "ins":
+				size += len(op.Vals)
+			case "del":
+				size -= op.N
+			}
+		}
+	}
+	h.S.Count("boundary_prefix_histories", 1)
+	return "", ""
+}
+
 // randomPhase runs `steps` random steps; quiescent points are forced with probability pq.
 func randomPhase(c *core.Case, h *crdt.Hist, steps int, quiescent *int) (string, string) {
 	r := c.Rng
 	for s := 0; s < steps; s++ {
 		rep := h.Reps[r.Intn(len(h.Reps))]
-		switch k := r.Intn(20); {
+		switch k := r.Intn(22); {
+		case k >= 20:
+			// a user transaction: committed (pushed as one unit) or aborted by its body (the
+			// replica rolls back and replays what it had applied since its last rollback point)
+			var body []crdt.Op
+			for i, n := 0, 1+r.Intn(3); i < n; i++ {
+				body = append(body, h.G.Op(rep))
+			}
+			var fail error
+			if r.Intn(2) == 0 {
+				fail = errAbort
+			}
+			h.S.Step("r%d transaction %s abort=%v", rep.Idx, crdt.JS(body), fail != nil)
+			var err error
+			var executed int
+			if pm := safely(func() { err, executed = runTx(rep, body, fail, false) }); pm != "" {
+				return "panic:transaction", fmt.Sprintf("r%d: transaction panicked: %s", rep.Idx, pm)
+			}
+			if fail == nil && err == nil {
+				h.LocalOK += executed
+				h.S.Count("transactions_committed", 1)
+			} else if fail != nil {
+				h.S.Count("transactions_aborted", 1)
+			}
+			if sig, msg := h.After(rep); sig != "" {
+				return sig, msg
+			}
 		case k < 12:
 			op := h.G.Op(rep)
 			if _, _, sig, msg := h.Local(rep, op); sig != "" {
